@@ -100,19 +100,22 @@ func (s *set[ElementType]) Compute(mutationFactory func(set ReadableSet[ElementT
 	return s.apply(mutationFactory(s.readableSet))
 }
 
-// Replace replaces the elements of the set with the given elements and returns the previous elements of the set.
-func (s *set[ElementType]) Replace(elements ReadableSet[ElementType]) (previousElements Set[ElementType]) {
+// Replace replaces the elements of the set with the given elements and returns the removed elements.
+func (s *set[ElementType]) Replace(elements ReadableSet[ElementType]) (removedElements Set[ElementType]) {
 	s.applyMutex.Lock()
 	defer s.applyMutex.Unlock()
 
-	previousElements = NewSet(s.ToSlice()...)
+	removedElements = NewSet(s.ToSlice()...)
 	s.Clear()
 
 	elements.Range(func(element ElementType) {
 		s.Set(element, types.Void)
+
+		// elements that are part of the new set were not removed
+		removedElements.Delete(element)
 	})
 
-	return previousElements
+	return removedElements
 }
 
 // ReadOnly returns a read-only version of the set.
